@@ -206,7 +206,7 @@ defvjp(
         "ij,...->ij...", anp.eye(x.shape[0], x.shape[1], k=offset), g
     ),
 )
-defvjp(anp.full, lambda ans, shape, fill_value, dtype=None: lambda g: anp.sum(g), argnums=(1,))
+defvjp(anp.full, lambda ans, shape, fill_value, dtype=None: unbroadcast_f(fill_value, lambda g: g), argnums=(1,))
 defvjp(anp.triu, lambda ans, x, k=0: lambda g: anp.triu(g, k=k))
 defvjp(anp.tril, lambda ans, x, k=0: lambda g: anp.tril(g, k=k))
 defvjp(anp.clip, lambda ans, x, a_min, a_max: lambda g: g * anp.logical_and(ans != a_min, ans != a_max))
